@@ -165,9 +165,7 @@ def run(chk):
                     "constant to double precision is a numerical comparison with numpy.euler_gamma (Mathlib proves 1/2 < gamma < 2/3 only)",
                     "Gumbel / GumbelMin std, skew, kurt constants (pi/sqrt 6, zeta(3), 12/5): checked "
                     "against numerical quadrature of the implementation's density, not proved (Mathlib lacks the second and higher "
-                    "derivatives of Gamma at 1)",
-                    "Weibull central moments: proved as raw-moment integral (wb_raw_moment) + algebraic expansion "
-                    "(wb_moments_algebra); the integrability bookkeeping that combines them is not restated as one theorem"]
+                    "derivatives of Gamma at 1)"]
     chk.assumptions += ["float tolerance 1e-9 relative for formula correspondence (Lanczos gamma vs scipy: <= 1e-13)",
                         "numerical derivative/quadrature tolerances: 1e-5 / 1e-6 relative (measurements)"]
     rng = chk.rng
